@@ -182,8 +182,6 @@ func Conv(f Format, val interface{}) (Value, error) {
 
 func toInt8(val interface{}) (int8, error) {
 	switch x := val.(type) {
-	case uint8:
-		return int8(x), nil
 	case int8:
 		return x, nil
 	default:
@@ -236,8 +234,6 @@ func toInt8List(val interface{}) ([]int8, error) {
 
 func toUInt8(val interface{}) (uint8, error) {
 	switch x := val.(type) {
-	case int8:
-		return uint8(x), nil
 	case uint8:
 		return x, nil
 	default:
@@ -294,8 +290,6 @@ func toInt16(val interface{}) (int16, error) {
 		return int16(x), nil
 	case uint8:
 		return int16(x), nil
-	case uint16:
-		return int16(x), nil
 	case int16:
 		return x, nil
 	default:
@@ -348,11 +342,7 @@ func toInt16List(val interface{}) ([]int16, error) {
 
 func toUInt16(val interface{}) (uint16, error) {
 	switch x := val.(type) {
-	case int8:
-		return uint16(x), nil
 	case uint8:
-		return uint16(x), nil
-	case int16:
 		return uint16(x), nil
 	case uint16:
 		return x, nil
@@ -416,24 +406,12 @@ func toInt32(val interface{}) (n int32, err error) {
 		return int32(x), nil
 	case int32:
 		return int32(x), nil
-	case uint32:
-		return int32(x), nil
-	case uint:
-		return int32(x), nil
-	case int:
-		return int32(x), nil
-	case int64:
-		return int32(x), nil
 	case string:
 		i, err := strconv.ParseInt(x, 10, 32)
 		return int32(i), err
-	case float64:
-		return int32(x), nil
-	case float32:
-		return int32(x), nil
 	default:
 		i, err := toInt64(val)
-		if err == nil && i >= math.MinInt32 && i <= math.MaxUint32 {
+		if err == nil && i >= math.MinInt32 && i <= math.MaxInt32 {
 			return int32(i), nil
 		}
 	}
@@ -490,19 +468,9 @@ func toInt32List(val interface{}) ([]int32, error) {
 
 func toUInt32(val interface{}) (uint32, error) {
 	switch x := val.(type) {
-	case int8:
-		return uint32(x), nil
 	case uint8:
 		return uint32(x), nil
-	case int16:
-		return uint32(x), nil
 	case uint16:
-		return uint32(x), nil
-	case int32:
-		return uint32(x), nil
-	case uint:
-		return uint32(x), nil
-	case int:
 		return uint32(x), nil
 	case uint32:
 		return x, nil
@@ -580,17 +548,26 @@ func toInt64(val interface{}) (n int64, err error) {
 	case int:
 		return int64(x), nil
 	case uint:
-		return int64(x), nil
+		if uint64(x) <= math.MaxInt64 {
+			return int64(x), nil
+		}
 	case uint64:
-		return int64(x), nil
+		if x <= math.MaxInt64 {
+			return int64(x), nil
+		}
 	case int64:
 		return x, nil
 	case string:
 		return strconv.ParseInt(x, 10, 64)
 	case float64:
-		return int64(x), nil
+		// only whole numbers inside [-2^63, 2^63) have an int64 value
+		if x == math.Trunc(x) && x >= -9223372036854775808.0 && x < 9223372036854775808.0 {
+			return int64(x), nil
+		}
 	case float32:
-		return int64(x), nil
+		if f := float64(x); f == math.Trunc(f) && f >= -9223372036854775808.0 && f < 9223372036854775808.0 {
+			return int64(f), nil
+		}
 	case time.Time:
 		return x.Unix(), nil
 	default:
@@ -658,34 +635,51 @@ func toInt64List(val interface{}) ([]int64, error) {
 func toUInt64(val interface{}) (uint64, error) {
 	switch x := val.(type) {
 	case int8:
-		return uint64(x), nil
+		if x >= 0 {
+			return uint64(x), nil
+		}
 	case uint8:
 		return uint64(x), nil
 	case int16:
-		return uint64(x), nil
+		if x >= 0 {
+			return uint64(x), nil
+		}
 	case uint16:
 		return uint64(x), nil
 	case int:
-		return uint64(x), nil
+		if x >= 0 {
+			return uint64(x), nil
+		}
 	case uint:
 		return uint64(x), nil
 	case int32:
-		return uint64(x), nil
+		if x >= 0 {
+			return uint64(x), nil
+		}
 	case uint32:
 		return uint64(x), nil
 	case int64:
-		return uint64(x), nil
+		if x >= 0 {
+			return uint64(x), nil
+		}
 	case uint64:
 		return x, nil
 	case string:
 		i, err := strconv.ParseUint(x, 10, 64)
 		return uint64(i), err
 	case float64:
-		return uint64(x), nil
+		// only whole numbers inside [0, 2^64) have a uint64 value
+		if x == math.Trunc(x) && x >= 0 && x < 18446744073709551616.0 {
+			return uint64(x), nil
+		}
 	case float32:
-		return uint64(x), nil
+		if f := float64(x); f == math.Trunc(f) && f >= 0 && f < 18446744073709551616.0 {
+			return uint64(f), nil
+		}
 	case time.Time:
-		return uint64(x.Unix()), nil
+		if secs := x.Unix(); secs >= 0 {
+			return uint64(secs), nil
+		}
 	default:
 		if rv := reflect.ValueOf(val); rv.CanUint() {
 			return rv.Uint(), nil
